@@ -67,3 +67,23 @@ Example nv_best_in_small : (Zpos 64 <= 400)%Z /\ best_in (314159 # 100000) (1 # 
 Proof. split; [lia | vm_compute; reflexivity]. Qed.
 Example nv_best_in_large : (400 < Zpos 667)%Z /\ best_in (1001 # 2000) (1 # 4000) 334 667 = true.
 Proof. split; [lia | vm_compute; reflexivity]. Qed.
+(* round 6: the large branch now decides minimality.  335/669 lies inside the same interval and no denominator <= 400
+   does (what the round-5 criterion established, and all it established): it was accepted before, it is rejected now;
+   so is the accepted fraction when it is not in lowest terms; a denominator of 1075 bits is decided as well *)
+Example nv_best_in_large_rejects :
+  in_openb (1001 # 2000) (1 # 4000) (335 # 669) = true /\ brute (1001 # 2000) (1 # 4000) 400 = None /\
+  best_in (1001 # 2000) (1 # 4000) 335 669 = false /\ best_in (1001 # 2000) (1 # 4000) 668 1334 = false.
+Proof. repeat split; vm_compute; reflexivity. Qed.
+Example nv_best_in_huge :
+  let x := (1 # (2 ^ 1074))%Q in let e := (1 # (2 ^ 2200))%Q in
+  best_in x e 1 (Zpos (2 ^ 1074)) = true /\ best_in (x + (1 # 3)) e (2 ^ 1074 + 3) (Zpos (3 * 2 ^ 1074)) = true /\
+  best_in (x + (1 # 3)) (1 # 1000000) 1 3 = true /\ best_in (x + (1 # 3)) (1 # 1000000) 333334 1000001 = false.
+Proof. repeat split; vm_compute; reflexivity. Qed.
+(* completeness is not idle either: the subnormal 2^-1074 with half its size as tolerance -- 1/2^1074 is inside but a smaller
+   denominator is, and the criterion rejects it; from_float's model on 0.1 (exact binary value) with tolerance 1/1000 *)
+Example nv_best_in_exact_rejects : best_in (1 # (2 ^ 1074)) (1 # (2 ^ 1075)) 1 (Zpos (2 ^ 1074)) = false.
+Proof. vm_compute; reflexivity. Qed.
+Example nv_from_float_tol : (0 < 1 # 1000)%Q /\ (1 # 1000 <= 1)%Q /\
+  from_float (3602879701896397 # 36028797018963968) (1 # 10) (FFTol (1 # 1000)) = ORet (1 # 10)%Q /\
+  from_float (1 # 2) (1 # 2) (FFTol (3 # 2)) = OFail /\ from_float (1 # 2) (1 # 2) (FFTol (-1 # 2)) = OFail.
+Proof. split; [reflexivity|]. split; [discriminate|]. repeat split; vm_compute; reflexivity. Qed.
